@@ -1276,6 +1276,61 @@ fn c15_case(sub: &str, id: u64, ctx: &Ctx, r: &mut Report) {
             r.cov("collect_pairs");
             r.distinct(hkey(&[&"collect_pairs", &id]));
         }
+        // clone() / clone_from() carry the WHOLE pool over, whatever the half state of the
+        // source or of the destination: two generators whose pools differ (also only in one
+        // half) have clones whose next collections differ, and the clone's pool (hook)
+        // equals the source's
+        "clone_pairs" => {
+            let rounds = *p.pick(&[1u8, 2, 3]);
+            let readings = gen_script(&mut p, 0, 64 * (rounds as usize + 2));
+            let tail = p.u64();
+            let d = c15_structured_pool(&mut p);
+            // difference confined to one half, or anywhere
+            let diff = match p.below(4) { 0 => (p.u64() | 1) << 32, 1 => (p.u64() >> 32) | 1, 2 => 1u64 << p.below(64), _ => p.u64() | 1 };
+            let e = d ^ diff;
+            let pending_src = p.chance(2, 3);
+            let via_clone_from = p.chance(1, 2);
+            let pending_dst = p.chance(1, 2);
+            let run = |pool: u64| -> (u64, u64, u64) {
+                let timer = ScriptedTimer::new(readings.clone(), tail);
+                let mut g = JitterRng::new_with_timer(timer.closure());
+                g.set_rounds(rounds);
+                if pending_src { let _ = g.next_u32(); }
+                g.verif_set_pool(pool);
+                let c = if via_clone_from {
+                    let mut dst = JitterRng::new_with_timer(timer.closure());
+                    dst.set_rounds(rounds);
+                    if pending_dst { let _ = dst.next_u32(); }
+                    dst.clone_from(&g);
+                    dst
+                } else {
+                    g.clone()
+                };
+                let mut c = c;
+                let cp = c.verif_pool();
+                timer.set_pos(40 * (rounds as usize + 2)); // both runs read the same stretch of the script
+                (cp, c.next_u64(), g.verif_pool())
+            };
+            let (cp_d, out_d, src_d) = run(d);
+            let (cp_e, out_e, _) = run(e);
+            r.eval();
+            if cp_d != d || src_d != d {
+                r.violation("JitterRng:clone:pool_not_carried_over".into(), sub, id, json!({
+                    "source_pool": hx64(d), "clone_pool": hx64(cp_d), "source_pool_after": hx64(src_d),
+                    "source_had_pending_half": pending_src, "via_clone_from": via_clone_from, "destination_had_pending_half": pending_dst}));
+                return;
+            }
+            r.eval();
+            if out_d == out_e || cp_d == cp_e {
+                r.violation("JitterRng:clone:merges_pools".into(), sub, id, json!({
+                    "pool_a": hx64(d), "pool_b": hx64(e), "clone_pool_a": hx64(cp_d), "clone_pool_b": hx64(cp_e), "next_u64_of_both_clones": hx64(out_d),
+                    "source_had_pending_half": pending_src, "via_clone_from": via_clone_from}));
+                return;
+            }
+            r.cov("clone_pairs");
+            if pending_src { r.cov("clone_pairs:source_half_pending"); }
+            r.distinct(hkey(&[&"clone_pairs", &id]));
+        }
         // "entropy already collected is never lost by further collection": the pool
         // after ANY operation sequence (next_u32 / next_u64 / fill_bytes /
         // timer_stats / test_timer, stalls included) is a one-to-one function of
@@ -1364,6 +1419,8 @@ pub fn run_c15(ctx: &Ctx, only: Option<&Only>) -> Report {
     total.merge(drive(ctx, "collide", 64, secs * 0.5, |id, r| c15_case("collide", id, ctx, r)));
     total.merge(drive(ctx, "collect_pairs", 2_000, secs * 0.1, |id, r| c15_case("collect_pairs", id, ctx, r)));
     total.merge(drive(ctx, "op_sequences", 1_200, secs * 0.1, |id, r| c15_case("op_sequences", id, ctx, r)));
+    total.merge(drive(ctx, "clone_pairs", 2_000, 0.0, |id, r| c15_case("clone_pairs", id, ctx, r)));
+    total.floor("clone_pairs:source_half_pending", 500);
     total.floor("rank_all_full", 1);
     total.floor("op_sequences_rank64", 500);
     total.floor("affinity_observations", 100_000);
